@@ -1,21 +1,21 @@
 SPECIFICATION Spec
 CONSTANTS
-  Ids = {"n1","n2"}
+  Ids = {"n1","n2","n3"}
   Bk <- BkL
   Buckets = {1}
-  IPs = {"a1","a2","b1","l1"}
-  Subnet <- SubA
+  IPs = {"l1"}
+  Subnet <- SubL
   LAN = {"l1"}
-  Seqs = {1,2,3}
+  Seqs = {1}
   BS = 2
   MR = 1
   BIL = 1
   TIL = 2
   MaxFails = 2
   MinBkt = 1
-  MaxGen = 1
-  MaxChecks = 2
-  Ops = {"add","reval"}
+  MaxGen = 2
+  MaxChecks = 3
+  Ops = {"add","delete","reval","track"}
   Devs = {}
 VIEW view
 INVARIANTS SizeBounds Unique RightBucket IPLimits ListConsistent RecConsistent
